@@ -48,6 +48,9 @@ pub enum Op {
     HolidayOn { cc: String, date: (i32, u32, u32), school: bool },
     CountryAt(i32, i32),
     TzAt(i32, i32),
+    /// the simulated clock moves forward by this many milliseconds (the thread "slept"; nothing the library
+    /// returns may depend on it)
+    AdvanceClock { ms: u64 },
     /// high-cardinality churn: n distinct comments / expressions / caller-made calendars in a row, half of the
     /// values kept alive, half dropped at once (reaches the eviction / sweep paths of any cache or interner)
     Churn { kind: u8, seed: u32, n: u32, t: i64 },
@@ -64,6 +67,9 @@ pub struct ExecCfg {
     pub probe_yield_budget: u32,
     pub read_short_permille: u32,
     pub read_eintr_permille: u32,
+    /// per mille probability that a probe moves the simulated clock forward (1 ms .. 25 h)
+    #[serde(default)]
+    pub clock_jump_permille: u32,
 }
 
 #[derive(Serialize, Deserialize, Clone, Debug, PartialEq, Eq)]
@@ -293,6 +299,15 @@ pub fn generate(rng: &mut Rng, p: &Pools, mode: &str) -> Workload {
             threads[b].insert(pb, o2);
         }
     }
+    // the simulated clock: one workload in five has threads that "sleep" between their operations
+    if !c10 && rng.chance(1, 5) {
+        for th in threads.iter_mut() {
+            for _ in 0..rng.range(1, 3) {
+                let pos = rng.usize_below(th.len() + 1);
+                th.insert(pos, Op::AdvanceClock { ms: *rng.pick(&[1, 49, 51, 999, 1_001, 59_000, 61_000, 3_599_000, 3_601_000, 86_401_000]) });
+            }
+        }
+    }
     // churn: one workload in four gets churn operations of one kind
     if !c10 && rng.chance(1, 4) {
         let kind = *rng.pick(&[0u8, 0, 1, 2]);
@@ -312,7 +327,11 @@ pub fn generate(rng: &mut Rng, p: &Pools, mode: &str) -> Workload {
     // tables collide on exactly such keys)
     if !c10 && rng.chance(1, 5) {
         let sun = rng.chance(1, 2);
-        let e = if sun { rng.pick(&p.sun_exprs).clone() } else { rng.pick(&p.easter_exprs).clone() };
+        // (Easter expressions without an explicit year: the others never change again after it and would be
+        // scanned to year 9999 from a later instant)
+        let open_ended: Vec<&String> = p.easter_exprs.iter().filter(|e| !e.contains("20")).collect();
+        let e = if sun || open_ended.is_empty() { rng.pick(&p.sun_exprs).clone() } else { (*rng.pick(&open_ended)).clone() };
+        let sun = sun || open_ended.is_empty();
         let t0 = *rng.pick(&p.instants);
         let first = rng.usize_below(p.sun_coords.len());
         let step = *rng.pick(&[16i64, 32, 32, 64]);
@@ -373,6 +392,7 @@ pub fn generate(rng: &mut Rng, p: &Pools, mode: &str) -> Workload {
         probe_yield_budget: 3000,
         read_short_permille: *rng.pick(&[0, 0, 50, 300, 900]),
         read_eintr_permille: *rng.pick(&[0, 0, 20, 200]),
+        clock_jump_permille: *rng.pick(&[0, 0, 0, 5, 50]),
     };
     let sched = if rng.chance(7, 10) { SchedSpec::Random { seed: rng.u64() } } else { SchedSpec::Pct { seed: rng.u64(), depth: rng.range(1, 3) as u32 } };
     Workload { mode: mode.to_string(), cfg, sched, prebuilt, threads, schedule: None }
